@@ -98,6 +98,9 @@ type vfC19Case struct {
 	// Move: the resumed connection speaks from another UDP address (only where the untouched peer receives records
 	// with a connection ID and can therefore follow)
 	Move bool
+	// Forged: before the export the exported side receives an unauthentic record of its read epoch with a record number
+	// far ahead (2^40). It is dropped; the exported state must not remember it.
+	Forged bool
 }
 
 func (c vfC19Case) ID() string {
@@ -113,6 +116,9 @@ func (c vfC19Case) ID() string {
 	}
 	if c.Poll {
 		id += "|first-call-expired-read"
+	}
+	if c.Forged {
+		id += "|forgery-before-export"
 	}
 
 	return id
@@ -457,6 +463,17 @@ func vfC19Run(t *testing.T, res *vfResult, c vfC19Case) {
 		y := w.s
 		if x == w.s {
 			y = w.c
+		}
+		if c.Forged {
+			cm := vfCommon(x.conn)
+			body := bytes.Repeat([]byte{0xa5}, 48)
+			ct, cid := uint8(23), []byte(nil)
+			if l := cm.LocalConnectionID(); len(l) > 0 {
+				ct, cid = 25, l
+			}
+			w.n.Deliver(string(x.ep.addr), vfLegacyRecord(ct, 0xfefd, cm.RemoteEpoch(), 1<<40, cid, -1, body), y.ep.addr)
+			synctest.Wait()
+			res.Count("forgeries_before_export", 1)
 		}
 		cidY := vfCIDLenOf(y.conn)
 		mark := w.n.LogLen()
@@ -876,6 +893,10 @@ func TestVF_C19(t *testing.T) {
 				cases = append(cases, vfC19Case{Suite: s, CID: cid, Side: side, I: 1, J: 1, Idx: idx, Move: true, SRTP: k%2 == 0})
 				idx++
 			}
+		}
+		for _, side := range []string{"c", "s", "both"} {
+			cases = append(cases, vfC19Case{Suite: s, CID: []int{-1, 4, 0}[k%3], Side: side, I: 1, J: 1, Idx: idx, Forged: true})
+			idx++
 		}
 	}
 	for k, s := range []string{"ECDSA-GCM128", "ECDSA-CBC", "PSK-CCM8"} {
